@@ -7,7 +7,7 @@ from .c05 import corpus_requests
 
 RULE = ("`loadseq <n> <path> <ops>`: sequences of load_signals / load_signals_multi_threaded / unload_signals calls (with repetitions, permutations, empty and "
         "duplicate requests) and direct SignalSource::load_signals calls on wavemem-backed (generated VCD, corpus VCD, GHW with sliced signals) and file-backed (corpus FST) "
-        "sources. After every call the harness reports, per signal of the file, whether it is loaded and identical to the same signal loaded ALONE in a fresh waveform; "
+        "sources, plus GHW (alias-rich) and FST files written from generated designs. After every call the harness reports, per signal of the file, whether it is loaded and identical to the same signal loaded ALONE in a fresh waveform; "
         "the Lean model (Waveform map + SignalSource) and the abstract loaded-set predict that report. non-trivial = at least one signal loaded at some point; "
         "distinct = distinct (request, reply)")
 
@@ -59,6 +59,19 @@ def requests(ctx):
         p = os.path.join(gen_dir, f"g{k}.vcd")
         open(p, "wb").write(hdr + body)
         files.append(p)
+    # generated GHW (alias-rich: sliced signals) and FST files (alias handles, several blocks) from abstract designs
+    from . import ghwgen
+    for k in range(5 if quick else 30):
+        _d, g, _v, f, _e = ghwgen.gen_triple(rng, nitems=rng.choice([6, 10]), nsteps=rng.choice([6, 15]))
+        for ext, data in (("ghw", g), ("fst", f)):
+            p = os.path.join(gen_dir, f"d{k}.{ext}")
+            open(p, "wb").write(data)
+            files.append(p)
+    for k in range(4 if quick else 20):
+        _d, g = ghwgen.gen_case(rng, nitems=8, nsteps=10, alias_prob=0.5, allow_structs=False)
+        p = os.path.join(gen_dir, f"a{k}.ghw")
+        open(p, "wb").write(g)
+        files.append(p)
     # universe sizes from the real loader
     out = os.path.join(ctx.work, "nsig.out")
     subprocess.run([ctx.wvh, "--out", out], input="".join(f"nsig {f}\n" for f in files).encode(),
@@ -69,7 +82,7 @@ def requests(ctx):
         if not sz.isdigit() or int(sz) == 0:
             continue
         n = int(sz)
-        for _ in range(8 if quick else 60):
+        for _ in range(14 if quick else 60):
             rq.append(f"loadseq {n} {f} {gen_ops(rng, n, rng.choice([3, 6, 12] if quick else [6, 12, 40]))}")
     return rq
 
